@@ -239,7 +239,7 @@ func (h *hctr) EncryptBytes(ciphertext, plaintext []byte) {
 	subtle.XORBytes(z1[:], z1[:], z2[:])
 	h.ctr(ciphertext[blockSize:], plaintext[blockSize:], &z1)
 	// d) first ciphertext block generation
-	h.uhash(ciphertext[blockSize:], &z1)
+	h.uhash(ciphertext[blockSize:len(plaintext)], &z1)
 	subtle.XORBytes(ciphertext, z2[:], z1[:])
 }
 
@@ -265,7 +265,7 @@ func (h *hctr) DecryptBytes(plaintext, ciphertext []byte) {
 	subtle.XORBytes(z2[:], z2[:], z1[:])
 	h.ctr(plaintext[blockSize:], ciphertext[blockSize:], &z2)
 	// d) first plaintext block generation
-	h.uhash(plaintext[blockSize:], &z2)
+	h.uhash(plaintext[blockSize:len(ciphertext)], &z2)
 	subtle.XORBytes(plaintext, z2[:], z1[:])
 }
 
